@@ -8,6 +8,10 @@ A scenario is a list of actions (plain dicts):
   {'k':'user', 'prim':<primitive>}           the local user issues a primitive (PDU object or
                                              a list of P-DATA-TF PDUs = one DIMSE message)
   {'k':'tick', 'dt':float}                   simulated time passes
+  {'k':'user', 'fn':callable(sim)}           dynamic user: the callable is evaluated when the action is released
+                                             and returns a primitive (or None: the user does nothing)
+  {'k':'call', 'fn':callable(sim)}           run arbitrary harness code at a quiescent point (e.g. a complete
+                                             second provider in the same process)
   {'k':'kill'}                               the provider is asked to terminate (is_killed)
   {'k':'stop'}                               DULServiceProvider.stop() is called
 Non-eager actions are released only when the loop is quiescent (two consecutive iterations that
@@ -273,11 +277,16 @@ class Sim(object):
                     continue        # dropped: try the next action right away
                 return
             if k == 'user':
-                prim = act['prim']
+                prim = act['fn'](self) if 'fn' in act else act['prim']
+                if prim is None:
+                    continue
                 if isinstance(prim, (list, tuple)):
                     prim = iter(list(prim))
                 self.provider.from_service_user.items.append(prim)
                 return
+            if k == 'call':
+                act['fn'](self)
+                continue
             if k == 'tick':
                 self.now += act['dt']
                 self.idle = 0
@@ -314,10 +323,13 @@ class Sim(object):
             if k == 'tick':
                 self.now += act['dt']
             elif k == 'user':
-                prim = act['prim']
-                if isinstance(prim, (list, tuple)):
-                    prim = iter(list(prim))
-                self.provider.from_service_user.items.append(prim)
+                prim = act['fn'](self) if 'fn' in act else act['prim']
+                if prim is not None:
+                    if isinstance(prim, (list, tuple)):
+                        prim = iter(list(prim))
+                    self.provider.from_service_user.items.append(prim)
+            elif k == 'call':
+                act['fn'](self)
             elif k == 'kill':
                 self.killed_by_script = True
                 self.provider.is_killed = True
